@@ -23,6 +23,7 @@ macro_rules! dispatch {
             "C13" => $f(worlds::watermark::WatermarkWorld, $($arg),*),
             "C12" => $f(worlds::window::WindowWorld, $($arg),*),
             "C20" => $f(worlds::store::StoreWorld, $($arg),*),
+            "C07" => $f(worlds::agenda::AgendaWorld, $($arg),*),
             other => {
                 eprintln!("no simulation world serves property {other}");
                 2
